@@ -444,8 +444,8 @@ def run_case(case):
                 what = "input-path" if got is not None and got.strip() == pin else "other"
                 out.append(viol("cli-%s:differs:%s" % (tag, what), "transformer.main wrote something else than the library returns for the file's content",
                                 (got or "<no file>")[:200], res_text[:200]))
-            if got == res_text:
-                # the same request with the OUTPUT path equal to the INPUT path (editing a file in place), and into an output file that already exists
+            if got == res_text and (len(text) + len(cat)) % 3 == 0:
+                # (every third document, to keep the quick tier short) the same request with the OUTPUT path equal to the INPUT path (editing a file in place), and into an output file that already exists
                 # and holds a longer text: the file must end up holding exactly the library's result
                 argv_in = [pin, pin] + argv[2:]
                 rci = observe(run_cli, argv_in)
